@@ -74,3 +74,255 @@ Example PositiveFixedAngle_examples :
   /\ ST_PositiveFixedAngle__to_xml (PFloat PInf) = Err ValueErr
   /\ ST_PositiveFixedAngle__to_xml (PStr [49%N]) = Err TypeErr.
 Proof. vm_compute. auto. Qed.
+
+(** ------------------------------------------------------------------------------------
+    Float-valued percentage classes: what is written is an integer text inside the
+    range of the schema type.  The argument: validate_float_in_range compares the value
+    EXACTLY with the two bounds; multiplication by the positive constant, round() and
+    int() are monotone with respect to exact values (proofs/PyFloat_proofs.v), so the
+    result lies between the images of the two bounds, which are computed. *)
+Local Open Scope Z_scope.
+
+(** a sharper version of [binv]: contradictory branches are closed, tests on variables
+    are split without leaving equations behind *)
+Ltac binv2 :=
+  repeat match goal with
+  | H : Err _ = Ok _ |- _ => discriminate H
+  | H : Ok _ = Ok _ |- _ => first [ discriminate H | injection H as H; try subst | clear H ]
+  | H : bind ?e ?k = Ok _ |- _ =>
+      let E := fresh "E" in destruct e eqn:E; cbn [bind] in H; [|discriminate H]
+  | H : (if ?b then _ else _) = Ok _ |- _ =>
+      first [ is_var b; destruct b | let B := fresh "B" in destruct b eqn:B ]
+  | H : as_bool (Ok (PBool ?b)) = Ok _ |- _ => cbn [as_bool bind py_truth] in H
+  end.
+
+(** the exact value python compares: an int is NOT rounded to a float first *)
+Definition num_exact (n : num) : pyfloat :=
+  match n with NZ z => Fin z 0 | NF f => f end.
+
+Lemma cmp_num_exact n f : cmp_num n (NF f) = f_cmp (num_exact n) f.
+Proof. destruct n; reflexivity. Qed.
+
+(** [not (v < lo) and not (v > hi)] means lo <= v <= hi by exact value, or v is a NaN *)
+Lemma range_check v n lo hi :
+  as_num v = Some n -> f_is_finite lo = true -> f_is_finite hi = true ->
+  py_lt v (PFloat lo) = Ok false -> py_gt v (PFloat hi) = Ok false ->
+  num_exact n = NaN \/ (f_leb lo (num_exact n) = true /\ f_leb (num_exact n) hi = true).
+Proof.
+  intros Hn Flo Fhi. unfold py_lt, py_gt, py_order. rewrite Hn. cbn [as_num].
+  rewrite !cmp_num_exact. unfold f_leb at 1. rewrite (f_cmp_opp (num_exact n) lo).
+  unfold f_leb.
+  destruct (num_exact n) as [m e| | |]; [| | |left; reflexivity];
+    destruct lo as [lm le| | |]; try discriminate Flo;
+    destruct hi as [hm he| | |]; try discriminate Fhi.
+  - rewrite !f_cmp_fin.
+    match goal with |- context [?a ?= ?b] => destruct (a ?= b) end;
+      intros H1; try discriminate H1;
+    match goal with |- context [?a ?= ?b] => destruct (a ?= b) end;
+      intros H2; try discriminate H2; right; split; reflexivity.
+  - intros _ H2. discriminate H2.
+  - intros H1. discriminate H1.
+Qed.
+
+(** multiplication of a python number by a float constant *)
+Lemma py_mul_float v n c t :
+  as_num v = Some n -> py_mul v (PFloat c) = Ok t ->
+  exists fx, num_float n = Ok fx /\ t = PFloat (f_mul fx c).
+Proof.
+  intros Hn. unfold py_mul, arith. rewrite Hn. cbn [as_num].
+  destruct n as [z|f]; cbn [num_float].
+  - destruct (f_of_Z z) as [fx|]; cbn [bind]; [|discriminate]. intros [= <-]. eauto.
+  - cbn [bind]. intros [= <-]. eauto.
+Qed.
+
+(** the float that enters the multiplication is still between the bounds when these
+    are representable (for an int: float(int) is monotone and fixes the bounds) *)
+Lemma num_float_bounds n fx lom loe him hie :
+  round_dy lom loe = Fin lom loe -> round_dy him hie = Fin him hie ->
+  num_float n = Ok fx ->
+  f_leb (Fin lom loe) (num_exact n) = true -> f_leb (num_exact n) (Fin him hie) = true ->
+  f_leb (Fin lom loe) fx = true /\ f_leb fx (Fin him hie) = true /\ f_is_finite fx = true.
+Proof.
+  intros Rl Rh Hf Hl Hh.
+  assert (G : f_leb (Fin lom loe) fx = true /\ f_leb fx (Fin him hie) = true).
+  { destruct n as [z|f]; cbn [num_float num_exact] in *.
+    - rewrite (f_of_Z_round _ _ Hf). split.
+      + now apply round_dy_mono_lower.
+      + now apply round_dy_mono_upper.
+    - injection Hf as <-. auto. }
+  destruct G as [G1 G2]. repeat split; try assumption.
+  destruct fx; try reflexivity; try discriminate G1; discriminate G2.
+Qed.
+
+(** value after scaling: NaN, or between the scaled bounds *)
+Lemma scaled_bounds v n lom loe him hie mc ec t :
+  as_num v = Some n ->
+  round_dy lom loe = Fin lom loe -> round_dy him hie = Fin him hie -> 0 < mc ->
+  py_lt v (PFloat (Fin lom loe)) = Ok false -> py_gt v (PFloat (Fin him hie)) = Ok false ->
+  py_mul v (PFloat (Fin mc ec)) = Ok t ->
+  exists y, t = PFloat y /\
+    (y = NaN \/ (f_leb (f_mul (Fin lom loe) (Fin mc ec)) y = true
+                 /\ f_leb y (f_mul (Fin him hie) (Fin mc ec)) = true)).
+Proof.
+  intros Hn Rl Rh Hc Hlt Hgt Hm.
+  destruct (py_mul_float v n _ t Hn Hm) as (fx & Hf & ->). eexists; split; [reflexivity|].
+  destruct (range_check v n (Fin lom loe) (Fin him hie) Hn eq_refl eq_refl Hlt Hgt) as [HN|[Hl Hh]].
+  - left. destruct n as [z|f]; cbn [num_exact num_float] in *; [discriminate HN|].
+    subst f. injection Hf as <-. reflexivity.
+  - right. destruct (num_float_bounds n fx _ _ _ _ Rl Rh Hf Hl Hh) as (G1 & G2 & G3).
+    split; apply f_mul_mono_l; auto.
+Qed.
+
+Lemma lex_int_between A B r :
+  A <= r <= B -> lex_ok (LInt A B) (str_of_Z r) = true.
+Proof.
+  intros H. cbn [lex_ok]. rewrite lex_integer_str_of_Z.
+  apply andb_true_iff; split; apply Z.leb_le; lia.
+Qed.
+
+(** str(int(round(v * c))) *)
+Lemma W_round_scaled v n lom loe him hie mc ec A B t t1 t2 s :
+  as_num v = Some n ->
+  round_dy lom loe = Fin lom loe -> round_dy him hie = Fin him hie -> 0 < mc ->
+  f_round (f_mul (Fin lom loe) (Fin mc ec)) = Ok A ->
+  f_round (f_mul (Fin him hie) (Fin mc ec)) = Ok B ->
+  py_lt v (PFloat (Fin lom loe)) = Ok false -> py_gt v (PFloat (Fin him hie)) = Ok false ->
+  py_mul v (PFloat (Fin mc ec)) = Ok t -> py_round t = Ok t1 -> py_int t1 = Ok t2 ->
+  py_str t2 = Ok (PStr s) ->
+  lex_ok (LInt A B) s = true.
+Proof.
+  intros Hn Rl Rh Hc HA HB Hlt Hgt Hm Hr Hi Hs.
+  destruct (scaled_bounds v n _ _ _ _ _ _ t Hn Rl Rh Hc Hlt Hgt Hm) as (y & -> & Hy).
+  cbn [py_round] in Hr. destruct (f_round y) as [r|] eqn:Er; cbn [bind] in Hr; [|discriminate].
+  injection Hr as <-. cbn [py_int] in Hi. injection Hi as <-.
+  apply py_str_int in Hs. subst s.
+  destruct Hy as [->|[Hl Hh]]; [discriminate Er|].
+  apply lex_int_between. split.
+  - eapply f_round_mono_leb; eassumption.
+  - eapply f_round_mono_leb; eassumption.
+Qed.
+
+(** str(int(v * c)) : int() truncates toward zero *)
+Lemma W_trunc_scaled v n lom loe him hie mc ec A B t t2 s :
+  as_num v = Some n ->
+  round_dy lom loe = Fin lom loe -> round_dy him hie = Fin him hie -> 0 < mc ->
+  f_trunc (f_mul (Fin lom loe) (Fin mc ec)) = Ok A ->
+  f_trunc (f_mul (Fin him hie) (Fin mc ec)) = Ok B ->
+  py_lt v (PFloat (Fin lom loe)) = Ok false -> py_gt v (PFloat (Fin him hie)) = Ok false ->
+  py_mul v (PFloat (Fin mc ec)) = Ok t -> py_int t = Ok t2 ->
+  py_str t2 = Ok (PStr s) ->
+  lex_ok (LInt A B) s = true.
+Proof.
+  intros Hn Rl Rh Hc HA HB Hlt Hgt Hm Hi Hs.
+  destruct (scaled_bounds v n _ _ _ _ _ _ t Hn Rl Rh Hc Hlt Hgt Hm) as (y & -> & Hy).
+  cbn [py_int] in Hi. destruct (f_trunc y) as [r|] eqn:Er; cbn [bind] in Hi; [|discriminate].
+  injection Hi as <-. apply py_str_int in Hs. subst s.
+  destruct Hy as [->|[Hl Hh]]; [discriminate Er|].
+  apply lex_int_between. split.
+  - eapply f_trunc_mono_leb; eassumption.
+  - eapply f_trunc_mono_leb; eassumption.
+Qed.
+
+(** isinstance(value, (int, float)) leaves int, bool and float *)
+Ltac num_cases v B :=
+  destruct v; try discriminate B.
+
+(** ST_Percentage: validate_float_in_range(value, -21474.83648, 21474.83647) and
+    str(int(round(value * 100000.0))): an xsd:int *)
+Theorem W_Percentage : forall v s,
+  ST_Percentage__to_xml v = Ok (PStr s) -> lex_ok (LInt (-2147483648) 2147483647) s = true.
+Proof.
+  intros v s H.
+  unfold ST_Percentage__to_xml, ST_Percentage__validate, ST_Percentage__validate_float_in_range,
+    ST_Percentage__validate_float, ST_Percentage__convert_to_xml in H.
+  binv2.
+  match goal with B : negb _ = false |- _ => num_cases v B end;
+    (eapply W_round_scaled; try eassumption; [reflexivity|..]; vm_compute; reflexivity).
+Qed.
+
+(** ST_PositiveFixedPercentage: range 0.0 .. 1.0, written 0 .. 100000 *)
+Theorem W_PositiveFixedPercentage : forall v s,
+  ST_PositiveFixedPercentage__to_xml v = Ok (PStr s) -> lex_ok (LInt 0 100000) s = true.
+Proof.
+  intros v s H.
+  unfold ST_PositiveFixedPercentage__to_xml, ST_PositiveFixedPercentage__validate,
+    ST_PositiveFixedPercentage__validate_float_in_range,
+    ST_PositiveFixedPercentage__validate_float, ST_PositiveFixedPercentage__convert_to_xml in H.
+  binv2.
+  match goal with B : negb _ = false |- _ => num_cases v B end;
+    (eapply W_round_scaled; try eassumption; [reflexivity|..]; vm_compute; reflexivity).
+Qed.
+
+(** ST_TextSpacingPercentOrPercentString: range 0.0 .. 132.0, written 0 .. 13200000 *)
+Theorem W_TextSpacingPercent : forall v s,
+  ST_TextSpacingPercentOrPercentString__to_xml v = Ok (PStr s) ->
+  lex_ok (LInt 0 13200000) s = true.
+Proof.
+  intros v s H.
+  unfold ST_TextSpacingPercentOrPercentString__to_xml,
+    ST_TextSpacingPercentOrPercentString__validate,
+    ST_TextSpacingPercentOrPercentString__validate_float_in_range,
+    ST_TextSpacingPercentOrPercentString__validate_float,
+    ST_TextSpacingPercentOrPercentString__convert_to_xml in H.
+  binv2.
+  match goal with B : negb _ = false |- _ => num_cases v B end;
+    (eapply W_round_scaled; try eassumption; [reflexivity|..]; vm_compute; reflexivity).
+Qed.
+
+(** ST_TextFontScalePercentOrPercentString: a finite number with 1.0 <= value <= 100.0,
+    str(int(value * 1000.0)) with int() truncating: written 1000 .. 100000 *)
+Theorem W_TextFontScalePercent : forall v s,
+  ST_TextFontScalePercentOrPercentString__to_xml v = Ok (PStr s) ->
+  lex_ok (LInt 1000 100000) s = true.
+Proof.
+  intros v s H.
+  unfold ST_TextFontScalePercentOrPercentString__to_xml,
+    ST_TextFontScalePercentOrPercentString__validate, BaseFloatType__validate,
+    ST_TextFontScalePercentOrPercentString__convert_to_xml in H.
+  binv2.
+  match goal with B : negb _ = false |- _ => num_cases v B end;
+    (eapply W_trunc_scaled; try eassumption; [reflexivity|..]; vm_compute; reflexivity).
+Qed.
+
+(** non-vacuity, the end points, and the NaN / bool / int cases *)
+Example Percentage_examples :
+  ST_Percentage__to_xml (PFloat (Fin 5902958100838277 (-38)))           (* 21474.83647 *)
+    = Ok (PStr [50; 49; 52; 55; 52; 56; 51; 54; 52; 55]%N)              (* 2147483647 *)
+  /\ ST_Percentage__to_xml (PFloat (Fin (-5902958103587057) (-38)))     (* -21474.83648 *)
+    = Ok (PStr [45; 50; 49; 52; 55; 52; 56; 51; 54; 52; 56]%N)          (* -2147483648 *)
+  /\ ST_Percentage__to_xml (PFloat NaN) = Err ValueErr                  (* round(nan) *)
+  /\ ST_Percentage__to_xml (PBool true) = Ok (PStr [49; 48; 48; 48; 48; 48]%N)
+  /\ ST_Percentage__to_xml (PInt 21475) = Err ValueErr
+  /\ ST_Percentage__to_xml (PStr [49%N]) = Err TypeErr.
+Proof. vm_compute. repeat split. Qed.
+
+Example PositiveFixedPercentage_examples :
+  ST_PositiveFixedPercentage__to_xml (PFloat (Fin 1 (-1))) = Ok (PStr [53; 48; 48; 48; 48]%N)
+  /\ ST_PositiveFixedPercentage__to_xml (PInt 1) = Ok (PStr [49; 48; 48; 48; 48; 48]%N)
+  /\ ST_PositiveFixedPercentage__to_xml (PFloat (Fin 4503599627370497 (-52))) = Err ValueErr
+  /\ ST_PositiveFixedPercentage__to_xml (PFloat NaN) = Err ValueErr.
+Proof. vm_compute. repeat split. Qed.
+
+Example TextSpacingPercent_examples :
+  ST_TextSpacingPercentOrPercentString__to_xml (PInt 132)
+    = Ok (PStr [49; 51; 50; 48; 48; 48; 48; 48]%N)
+  /\ ST_TextSpacingPercentOrPercentString__to_xml (PFloat (Fin 3 (-1)))
+    = Ok (PStr [49; 53; 48; 48; 48; 48]%N)
+  /\ ST_TextSpacingPercentOrPercentString__to_xml (PInt 133) = Err ValueErr.
+Proof. vm_compute. repeat split. Qed.
+
+Example TextFontScalePercent_examples :
+  ST_TextFontScalePercentOrPercentString__to_xml (PFloat (Fin 100 0))
+    = Ok (PStr [49; 48; 48; 48; 48; 48]%N)
+  /\ ST_TextFontScalePercentOrPercentString__to_xml (PInt 1) = Ok (PStr [49; 48; 48; 48]%N)
+  /\ ST_TextFontScalePercentOrPercentString__to_xml (PFloat (Fin 62499 (-4)))   (* 3906.19 > 100 *)
+    = Err ValueErr
+  /\ ST_TextFontScalePercentOrPercentString__to_xml (PFloat (Fin 199 (-1)))     (* 99.5 *)
+    = Ok (PStr [57; 57; 53; 48; 48]%N)
+  /\ ST_TextFontScalePercentOrPercentString__to_xml (PFloat NaN) = Err ValueErr.
+Proof. vm_compute. repeat split. Qed.
+
+Print Assumptions W_Percentage.
+Print Assumptions W_PositiveFixedPercentage.
+Print Assumptions W_TextSpacingPercent.
+Print Assumptions W_TextFontScalePercent.
